@@ -327,6 +327,8 @@ class Folder:
                 obj.fields.update(v)
             elif isinstance(obj, Rec):
                 obj.fields[t.attr] = v
+            elif getattr(obj, "_sa_model", False):
+                setattr(obj, t.attr, v)
             else:
                 raise Undecidable(f"attribute store {norm(t)}")
         else:
@@ -676,6 +678,8 @@ class Folder:
             return getattr(_m, fn.split(".")[1])(args[0])
         if fn in ("np.ones", "np.zeros", "numpy.ones", "numpy.zeros") and len(args) == 1 and isinstance(args[0], int) and not isinstance(args[0], bool) and \
                 set(kwargs) <= {"dtype"}:
+            if kwargs.get("dtype") == Opaque("type:int"):
+                return IntArray([1 if fn.endswith("ones") else 0] * args[0])
             return [1 if fn.endswith("ones") else 0] * args[0]         # a one-dimensional array of a literal length, as a list
         if fn in ("np.linspace", "numpy.linspace") and len(args) == 3 and all(isinstance(a, int) and not isinstance(a, bool) for a in args) and \
                 set(kwargs) == {"dtype"} and kwargs["dtype"] == Opaque("type:int") and args[2] >= 1:
@@ -704,7 +708,7 @@ class Folder:
                 return int(args[0], args[1])
             except ValueError:
                 raise Raised("ValueError", e)
-        if fn in ("np.prod", "numpy.prod", "math.prod") and len(args) == 1 and isinstance(args[0], (list, tuple)) and not kwargs:
+        if fn in ("np.prod", "numpy.prod", "math.prod") and len(args) == 1 and isinstance(args[0], (list, tuple, IntArray)) and not kwargs:
             out = 1
             for x in args[0]:
                 out = out * x
